@@ -39,7 +39,8 @@ ASSUME = ['calls on one instance are sequential (the mutex serialises them; conc
 FORBIDDEN = [4, 8, 9, 11, 19]
 RAISABLE = [1, 2, 10, 12, 14, 15, 17, 28, 34, 35, 50, 64]
 OS_BAD = [0, 32, 33] + list(range(65, 128))
-GOOD_EXTRA = [3, 5, 6, 7, 13, 16, 18, 20, 21, 22, 23, 24, 25, 26, 27, 29, 30, 31, 36, 40, 63]
+# SIGPIPE (13) is deliberately absent: see the note in run() about wake-ups on a closed peer
+GOOD_EXTRA = [3, 5, 6, 7, 16, 18, 20, 21, 22, 23, 24, 25, 26, 27, 29, 30, 31, 36, 40, 63]
 NEG = [-1, -2, -9, -128, -2147483648]
 LARGE = [128, 129, 255, 256, 1000, 65536, 2147483647]
 EXF = ['SignalOnly', 'WithRawSiginfo', 'WithOrigin']
@@ -95,18 +96,19 @@ def gen_history(rnd, maxlen):
             return rnd.choice(LARGE) if rnd.random() < 0.7 else rnd.randint(128, 2 ** 31 - 1)
         return rnd.choice(OS_BAD)
 
-    def pick_inst():
-        if not insts or rnd.random() < 0.06:
+    def pick_inst(want=None):
+        if not insts or rnd.random() < 0.05:
             return rnd.randint(0, len(insts) + 1)
-        live = [i for i, x in enumerate(insts) if x[0] or x[1] > 0]
-        if live and rnd.random() < 0.9:
+        live = [i for i, x in enumerate(insts) if (x[0] or x[1] > 0) and (want is None or want(x))]
+        if live and rnd.random() < 0.93:
             return rnd.choice(live)
         return rnd.randrange(len(insts))
 
     n = rnd.randint(8, maxlen)
     while len(h) < n:
         r = rnd.random()
-        if (not insts and r < 0.6) or (r < 0.12 and len(insts) < 10):
+        nolive = not any(x[0] or x[1] > 0 for x in insts)
+        if (nolive and r < 0.7 and len(insts) < 10) or (r < 0.10 and len(insts) < 10):
             k = rnd.choice([0, 1, 1, 2, 2, 3])
             sigs = [bad() if rnd.random() < 0.12 else good() for _ in range(k)]
             e, api = rnd.randint(0, 2), (1 if rnd.random() < 0.3 else 0)
@@ -123,12 +125,12 @@ def gen_history(rnd, maxlen):
             if i < len(insts) and (insts[i][0] or insts[i][1] > 0):
                 insts[i][1] += 1
         elif r < 0.63:
-            i = pick_inst()
+            i = pick_inst(lambda x: x[1] > 0)
             h.append([4, i])
             if i < len(insts) and insts[i][1] > 0:
                 insts[i][1] -= 1
         elif r < 0.70:
-            i = pick_inst()
+            i = pick_inst(lambda x: x[0])
             h.append([5, i])
             if i < len(insts):
                 insts[i][0] = False
@@ -328,7 +330,7 @@ def monitor(h, recs, end):
             x = insts[i]
             exp = expect_add(x, n)
             if res == 'panic' and exp != 'panic':
-                v.append(('add-unexpected-panic', k, 'add_signal(%d) on a %s instance panicked (%s); expected %s - an earlier rejected call broke the instance' %
+                v.append(('add-unexpected-panic', k, 'add_signal(%d) on a %s instance panicked (%s); expected %s (documented panics: forbidden, negative, >= 128 only)' %
                           (n, EXF[x['e']], rec['msg'], exp or 'ok/err')))
             elif exp is not None and res != exp:
                 v.append(('add-unexpected-result', k, 'add_signal(%d) on a %s instance: expected %s, got %s' % (n, EXF[x['e']], exp, rec['raw'])))
@@ -378,7 +380,7 @@ def monitor(h, recs, end):
                 x = insts[j]
                 want = 1 if (owners(x) and sig in x['watched']) else 0
                 if wake != '?' and int(wake) != want:
-                    kind = 'delivery-lost' if want else 'registration-leaked'
+                    kind = 'registration-leaked' if int(wake) > want else 'delivery-lost'
                     v.append((kind, k, 'raise(%d): the action of %s instance %d (owners left: %s, watched: %s) ran %s times, expected %d' %
                               (sig, EXF[x['e']], j, owners(x), sorted(x['watched']), wake, want)))
                 if x['alive']:
@@ -488,6 +490,10 @@ def run(ctx, only=None):
         else:
             small = h
         inv = [op for op in small if op[0] == 1]
+        if k < len(small) and small[k][0] in (2, 3, 4, 5) and small[k][1] < len(inv):
+            inv = [inv[small[k][1]]]
+        elif k < len(small) and small[k][0] == 1:
+            inv = [small[k]]
         ctx.violation({'monitor': kind, 'exfiltrator': EXF[inv[0][1]] if inv else '-'},
                       '%s: %s   [history: %s]' % (kind, text, describe(small)),
                       {'history': small, 'failing_op': k, 'text': describe(small),
